@@ -673,6 +673,12 @@ func ssRoundRobinExact(out *vOut, rng *vRand, idx int64) {
 	n := 1 + rng.Intn(4)
 	k := 1 + rng.Intn(40)
 	m := 2 + rng.Intn(14)
+	if idx%2 == 1 {
+		// many picks from many goroutines: a lost or duplicated ticket of the
+		// shared cursor needs contention to show
+		k = 500 + rng.Intn(2500)
+		m = 8 + rng.Intn(9)
+	}
 	cp := &pb.ChannelPoolConfig{MinSize: uint32(n), MaxSize: uint32(n), MaxConcurrentStreamsLowWatermark: 1000, BindPickStrategy: pb.ChannelPoolConfig_ROUND_ROBIN}
 	cc := &ssCC{}
 	b := newBuilder().Build(cc, balancer.BuildOptions{}).(*gcpBalancer)
